@@ -28,8 +28,8 @@
 EXTENDS Worlds, TLC, FiniteSets, Json
 CONSTANTS K,       \* integration steps explored
           Mode     \* "r1": one step from any grid state (no start-up sequence); "r2": start-up + K steps
-VARIABLES wi, ti, phase, stock, pval, cache, flow, hist, obs
-vars == <<wi, ti, phase, stock, pval, cache, flow, hist, obs>>
+VARIABLES wi, ti, phase, stock, pval, cache, flow, hist, obs, st0   \* st0: the initial stock (before the start-up flush), kept for replay
+vars == <<wi, ti, phase, stock, pval, cache, flow, hist, obs, st0>>
 
 RECURSIVE ProdSeq(_)
 ProdSeq(ss) == IF ss = <<>> THEN {<<>>} ELSE {<<x>> \o t : x \in Head(ss), t \in ProdSeq(Tail(ss))}
@@ -154,7 +154,7 @@ FlushIllPosed(w,pv,st) == \E j \in 1..NC(w) : w.kind[j] = "junction" /\ RLt(Zero
 \* ==================================================================================================
 W == Worlds[wi]
 Init == /\ wi \in 1..Len(Worlds)
-        /\ stock \in ProdSeq(Worlds[wi].grid)
+        /\ stock \in ProdSeq(Worlds[wi].grid) /\ st0 = stock
         /\ ti = 0 /\ cache = <<>> /\ flow = <<>> /\ hist = <<>> /\ obs = ""
         /\ IF Mode = "r1" THEN phase = "pars" /\ pval \in ProdSeq(Worlds[wi].dom)
                           ELSE phase = "built" /\ pval = <<>>
@@ -162,29 +162,29 @@ Init == /\ wi \in 1..Len(Worlds)
 \* r2 start-up: parameters at index 0, initial flush, parameters again (environment values are data: unchanged)
 UpdatePars0 == /\ phase = "built"
                /\ pval' \in {pv \in ProdSeq(W.dom) : ~FlushIllPosed(W, pv, stock)}
-               /\ phase' = "pars0" /\ UNCHANGED <<wi, ti, stock, cache, flow, hist, obs>>
+               /\ phase' = "pars0" /\ UNCHANGED <<wi, ti, stock, cache, flow, hist, obs, st0>>
 InitialFlush == /\ phase = "pars0"
                 /\ stock' = Flush(W, pval, stock, 1)
-                /\ phase' = "flushed" /\ UNCHANGED <<wi, ti, pval, cache, flow, hist, obs>>
+                /\ phase' = "flushed" /\ UNCHANGED <<wi, ti, pval, cache, flow, hist, obs, st0>>
 UpdatePars0b == /\ phase = "flushed"
-                /\ phase' = "pars" /\ UNCHANGED <<wi, ti, stock, pval, cache, flow, hist, obs>>
+                /\ phase' = "pars" /\ UNCHANGED <<wi, ti, stock, pval, cache, flow, hist, obs, st0>>
 
 UpdateLinks == /\ phase = "pars"
                /\ LET ca == Cache(W, pval, stock)
                       f == Bal(W, pval, Flow1(W, ca, stock), 1)
                   IN cache' = ca /\ flow' = f
-               /\ phase' = "links" /\ UNCHANGED <<wi, ti, stock, pval, hist, obs>>
+               /\ phase' = "links" /\ UNCHANGED <<wi, ti, stock, pval, hist, obs, st0>>
 UpdateComps == /\ phase = "links" /\ ti < K
                /\ LET nx == [c \in 1..NC(W) |-> StepComp(W, cache, stock, flow, c)]
                       h2 == Append(hist, [pv |-> pval, st |-> stock, fl |-> flow, ca |-> cache, ill |-> IllPosed(W, pval, flow)])
                   IN /\ stock' = nx /\ hist' = h2
-                     /\ obs' = IF ti + 1 = K THEN ToJson([w |-> W.id, hist |-> h2, final |-> nx]) ELSE ""
+                     /\ obs' = IF ti + 1 = K THEN ToJson([w |-> W.id, init |-> st0, hist |-> h2, final |-> nx]) ELSE ""
                /\ ti' = ti + 1
                /\ phase' = IF ti + 1 = K THEN "done" ELSE "comps"
-               /\ UNCHANGED <<wi, pval, cache, flow>>
+               /\ UNCHANGED <<wi, pval, cache, flow, st0>>
 UpdatePars == /\ phase = "comps"
               /\ pval' \in ProdSeq(W.dom)
-              /\ phase' = "pars" /\ UNCHANGED <<wi, ti, stock, cache, flow, hist, obs>>
+              /\ phase' = "pars" /\ UNCHANGED <<wi, ti, stock, cache, flow, hist, obs, st0>>
 Next == UpdatePars0 \/ InitialFlush \/ UpdatePars0b \/ UpdateLinks \/ UpdateComps \/ UpdatePars
 Spec == Init /\ [][Next]_vars
 
